@@ -80,7 +80,7 @@ def run(ctx: common.Ctx):
     res = cv_checks.explore(ctx, ctx.n(120, 2000), dict(base, exception='auto', variations=['limits']))
     s2 = dict(ctx.coverage['worker_stats'])
     judge(ctx, res, 'trypsin-exc')
-    enz = [e for e in cv_checks.enzymes_all() if cv_checks.has_lookahead(e)]
+    enz = cv_checks.enzymes_all()      # enzymes without look-ahead no longer crash (fix 434ebbe)
     res = cv_checks.explore(ctx, ctx.n(100, 2000), dict(base, exception=None, enzymes=enz, stages=True))
     judge(ctx, res, 'lookahead-enzymes')
     cv_checks.judge_checkpoints(ctx, res, 'extra')
